@@ -541,6 +541,63 @@ func runC19(c *core.Ctx) {
 		}
 	}
 	rec()
+	// ---- list-typed subscription fields: the event is a list, the subscriber's selection applies to every element
+	{
+		var lidx int64
+		for _, sel := range []struct{ text, want string }{
+			{"{name}", `[{"name":"one"},{"name":"two"}]`}, {"{n}", `[{"n":1},{"n":2}]`}, {"{name n}", `[{"n":1,"name":"one"},{"n":2,"name":"two"}]`}, {"{n @skip(if: true) name}", `[{"name":"one"},{"name":"two"}]`},
+		} {
+			for _, reflectE := range []bool{false, true} {
+				for _, prepared := range []bool{false, true} {
+					lidx++
+					if !c.OwnsIdx(1<<46 + lidx) {
+						continue
+					}
+					c.Eval()
+					c.R.Distinct++
+					c.Nontrivial()
+					h := newC19H(reflectE)
+					q := `subscription { evs(id: "x") ` + sel.text + ` }`
+					var cnt int
+					var perr error
+					var res map[string]interface{}
+					pi := core.Safe(func() {
+						if prepared {
+							exe, err := h.root.ParseExecutableString(q)
+							if err != nil {
+								panic(core.EngineError{Msg: "C19 list subscription refused: " + err.Error()})
+							}
+							res, _ = h.root.ResolveExecutable(exe, "", nil)
+						} else {
+							res = h.root.ResolveString(q, "", nil)
+						}
+						var ev interface{} = []interface{}{&c19EvRes{map[string]interface{}{"name": "one", "n": 1}}, &c19EvRes{map[string]interface{}{"name": "two", "n": 2}}}
+						if reflectE {
+							ev = []*C19Ev{{Name: "one", N: 1}, {Name: "two", N: 2}}
+						}
+						cnt, perr = h.root.AddEvent("x", ev)
+					})
+					detail := map[string]interface{}{"request": q, "subscribe_response": res, "log": h.log, "want_payload": sel.want}
+					got := ""
+					for _, l := range h.log {
+						if strings.HasPrefix(l, "send:") {
+							got = l
+						}
+					}
+					switch {
+					case pi != nil:
+						c.Violation("panic", map[string]string{"site": pi.Site, "class": pi.Class}, detail)
+					case cnt != 1 || perr != nil || !strings.Contains(got, sel.want):
+						detail["diff"] = fmt.Sprintf("publish matched %d, error %v, delivered %q", cnt, perr, got)
+						c.Outcome("list-event-diff")
+						c.Violation("registry-diff", map[string]string{"op": "publish", "what": "list-event-payload", "selection_uses_variable": "false"}, detail)
+					default:
+						c.Outcome("list-event-agree")
+					}
+				}
+			}
+		}
+	}
 	c.R.Bound = fmt.Sprintf("BFS: %v; unmerged histories of length %d over a reduced alphabet", func() []string {
 		var n []string
 		for _, cf := range cfgs {
